@@ -145,3 +145,14 @@ Definition replay_verdict (tr : list ilabel) (threads : list nat) : nat * bool *
                     forallb (fun t => match i_pc s t with Idle => true | _ => false end) threads)
   | (n, None) => (n, false, false, false)
   end.
+
+(* ---- chains of wrappers: h0 = NewIsolatedJob(job), h(i+1) = NewIsolatedJob(h i), every handle in use ----
+   gates_passed w i: the gates (numbered like the handles) an execution that enters through handle i has
+   swapped successfully when it reaches the underlying job, outermost first.  `w` says whether the
+   constructor wraps exactly the job it was handed (Params.iso_ctor_wraps_argument) or looks through an
+   argument that is itself an isolated job and wraps the innermost job directly. *)
+Fixpoint gates_passed (wraps_arg : bool) (i : nat) : list nat :=
+  i :: match i with
+       | O => []
+       | S k => if wraps_arg then gates_passed wraps_arg k else []
+       end.
